@@ -6,9 +6,12 @@ IR, not from the lexer) replaced by code-like text of the same displayed
 width.  Oracle: identical observation (status + every diagnostic's code,
 level, line and column).
 """
+import os
 import random
+import shutil
+import tempfile
 
-from nv import relwork
+from nv import relwork, cliobs
 from nv.run import Shard
 
 ID = "C17"
@@ -22,6 +25,9 @@ WORKER_TIMEOUT = {"quick": 600, "thorough": 3600}
 CODE_LIKE = list("+-*/%=<>!&|^~;,(){}[]#:.? ") + list("abcxyz0123456789_") + ["if", "while", "int", "return", "for",
                                                                                 "else", "char", "NULL", "sizeof"]
 # alternative spellings of punctuators are ordinary text inside a comment or a literal (never ??/, a backslash in disguise)
+# characters outside ASCII and control characters that some library calls (str.splitlines, codecs) treat specially:
+# each is one character, one column, and means nothing in a comment or a literal
+UNICODE_LIKE = ["\u00e9", "\u20ac", "\u00df", "\u6f22", "\U0001f600", "\x0c", "\x0b", "\x1c", "\x85", "\u2028", "\u00a0", "\x7f"]
 ALT_SPELLINGS = ["<:", ":>", "<%", "%>", "%:", "??(", "??)", "??<", "??>", "??=", "??'", "??!", "??-"]
 
 
@@ -42,6 +48,8 @@ def fill(r, width, banned, other_quote, mode="mixed", allow_alt=True):
         alphabet = [a for a in alphabet if not a[0].isalnum() and a != " "]
     elif mode == "alt_spellings":
         alphabet = [a for a in ALT_SPELLINGS if not any(b in a for b in banned)] + ["a", " "]
+    elif mode == "unicode":
+        alphabet = UNICODE_LIKE + ["a", " ", "+", "("]
     while len(out) < width:
         a = r.choice(alphabet)
         if len(out) + len(a) > width:
@@ -141,6 +149,7 @@ def run_shard(spec):
     sh = Shard(max_per_sig=3)
     r = random.Random("c17/%s/%d" % (spec["seed"], spec["shard"]))
     import itertools
+    nuni = ndisk = 0
     for p, tag in itertools.chain(relwork.corpus(spec, nvar=3, force=("V57", "V58", "V59")), long_comment_programs(spec, r)):
         for rep, mode in enumerate(["mixed", r.choice(["no_blank", "punctuation", "alt_spellings"])]):
             q, changed = mutate(p, r, mode)
@@ -158,6 +167,44 @@ def run_shard(spec):
                 sh.violation("obs_differs", (tag.split(":")[1],) + relwork.sig_of_diff(d),
                              {"mode": "pair", "name": p.name, "a": p.text(), "b": q.text()}, d)
             sh.sample({"original_line": _first_diff(p.text(), q.text())[0], "replaced_line": _first_diff(p.text(), q.text())[1]}, cap=2)
+        # characters outside ASCII, both directions (the original holds them, the replacement is ASCII, and back), in
+        # process and - for a few - with the command line reading the files itself
+        nuni += 1
+        if nuni % 3 == 0:
+            u, changed = mutate(p, r, "unicode")
+            if changed:
+                v, _ = mutate(u, r, "mixed")
+                obs = [relwork.obs_of(x.name, x.text())[0] for x in (p, u, v)]
+                sh.count("c17.obs_equal_unicode")
+                sh.tally("pairs", "unicode")
+                sh.case("uni\0" + u.text() + "\0" + v.text())
+                for (x, ox), (y, oy) in (((p, obs[0]), (u, obs[1])), ((u, obs[1]), (v, obs[2]))):
+                    if ox != oy:
+                        d = relwork.diff(ox, oy)
+                        sh.violation("obs_differs", ("unicode",) + relwork.sig_of_diff(d),
+                                     {"mode": "pair", "name": p.name, "a": x.text(), "b": y.text()}, d)
+                if ndisk < spec.get("disk", 4) and obs[1][0] == "ok":
+                    ndisk += 1
+                    got = []
+                    for x in (u, v):
+                        d0 = tempfile.mkdtemp(prefix="nv_c17_")
+                        try:
+                            with open(os.path.join(d0, x.name), "w", encoding="utf-8") as f:
+                                f.write(x.text())
+                            run = cliobs.run_cli(["--no-colors", x.name], cwd=d0)
+                            fs = [f for f in (run.trace or {}).get("files", []) if f.get("state") == "done"]
+                            got.append((fs[0].get("status"), sorted((e[0], e[1], e[2], e[3]) for e in fs[0].get("events") or []))
+                                       if fs else None)
+                        finally:
+                            shutil.rmtree(d0, ignore_errors=True)
+                    sh.count("c17.obs_equal_read_from_disk")
+                    sh.tally("pairs", "unicode_cli")
+                    if got[0] is None or got[1] is None:
+                        sh.count("c17.disk_pair_without_verdict")
+                    elif got[0] != got[1] or ("ok",) + got[0] != tuple(obs[1]):
+                        sh.violation("obs_differs_read_from_disk", ("unicode",), {"mode": "disk_pair", "name": p.name, "a": u.text(), "b": v.text()},
+                                     {"only_a": [e for e in got[0][1] if e not in got[1][1]][:4], "only_b": [e for e in got[1][1] if e not in got[0][1]][:4],
+                                      "in_process": [list(x) for x in (obs[1][2] or [])][:4], "status": [got[0][0], got[1][0]]})
     # probe of F-58: alternative spellings inside comment lines near the width limit
     for p, tag in long_comment_programs(dict(spec, n=6), r):
         q, changed = mutate(p, r, "alt_spellings", alt_everywhere=True)
@@ -183,6 +230,23 @@ def _first_diff(a, b):
 
 
 def replay(case, sh):
+    if case.get("mode") == "disk_pair":
+        got = []
+        for txt in (case["a"], case["b"]):
+            d0 = tempfile.mkdtemp(prefix="nv_c17r_")
+            try:
+                with open(os.path.join(d0, case["name"]), "w", encoding="utf-8") as f:
+                    f.write(txt)
+                run = cliobs.run_cli(["--no-colors", case["name"]], cwd=d0)
+                fs = [f for f in (run.trace or {}).get("files", []) if f.get("state") == "done"]
+                got.append((fs[0].get("status"), sorted((e[0], e[1], e[2], e[3]) for e in fs[0].get("events") or [])) if fs else None)
+            finally:
+                shutil.rmtree(d0, ignore_errors=True)
+        sh.evaluations += 1
+        a, _ = relwork.obs_of(case["name"], case["a"])
+        if got[0] != got[1] or (got[0] is not None and a[0] == "ok" and ("ok",) + got[0] != tuple(a)):
+            sh.violation("obs_differs_read_from_disk", ("replay",), case, {})
+        return
     a, _ = relwork.obs_of(case["name"], case["a"])
     b, _ = relwork.obs_of(case["name"], case["b"])
     sh.evaluations += 1
